@@ -79,25 +79,20 @@ def run_command(command_func, config_file, server_names, user_specified=None):
             print(f"\nError in command: {e}")
         finally:
             should_log = not clean_exit
-            for i, (cm, _) in enumerate(list(context_managers)):
+            # Leave every connection from this task - the one that entered it - and in
+            # reverse order: the client's task group and cancel scopes belong to this
+            # task, and a clean-up started from another task is cancelled before it has
+            # terminated the child. The client bounds its own shutdown (two one-second
+            # grace periods).
+            total = len(context_managers)
+            for i, (cm, _) in reversed(list(enumerate(context_managers))):
                 try:
-                    close_task = asyncio.create_task(cm.__aexit__(None, None, None))
-                    try:
-                        await asyncio.wait_for(close_task, timeout=2.0)
-                    except asyncio.TimeoutError:
-                        if should_log:
-                            print(
-                                f"Connection cleanup {i + 1}/{len(context_managers)} timed out"
-                            )
-                    except (asyncio.CancelledError, RuntimeError):
-                        pass
+                    await cm.__aexit__(None, None, None)
+                except (asyncio.CancelledError, RuntimeError):
+                    pass
                 except Exception as e:
-                    if should_log and not isinstance(
-                        e, (asyncio.CancelledError, RuntimeError)
-                    ):
-                        print(
-                            f"Error during server shutdown {i + 1}/{len(context_managers)}: {e}"
-                        )
+                    if should_log:
+                        print(f"Error during server shutdown {i + 1}/{total}: {e}")
 
     os.system("cls" if os.name == "nt" else "clear")  # nosec B605 - hardcoded safe commands
 
